@@ -477,7 +477,7 @@ def run(ctx):
         nsh = 16
         groups = [items[i::nsh] for i in range(nsh) if items[i::nsh]]
         gmeta = [meta[i::nsh] for i in range(nsh) if meta[i::nsh]]
-        outs = coq.run_cases(ctx, "c27", "From Coq Require Import NArith List.\nImport ListNotations.\nFrom SwayV Require Import Vm.Alu C27.NumModel C27.CollModel C27.Spec C27.Judge.",
+        outs = coq.run_cases(ctx, "c27", "From Coq Require Import NArith List.\nImport ListNotations.\nFrom SwayV Require Import Vm.Alu C27.NumModel C27.CollModel C27.Spec C27.CollSpec C27.Judge.",
                              ["\n".join(g) for g in groups], timeout=1500)
         for g, ms in zip(outs, gmeta):
             if len(g) != len(ms):
